@@ -123,6 +123,7 @@ def register(reg):
     _register_write(reg)
     _register_write2(reg)
     _register_api_write(reg)
+    _register_squash(reg)
 
 
 def _register_nodes(reg):
@@ -1057,3 +1058,84 @@ def _register_api_write(reg):
                         props=("C01",)))
     reg.add(g, Contract(H + "__delitem__", ["self", "key"], api_write_cases("delete"), setup=api_write_setup(False),
                         props=("C01",)))
+
+
+# ---------------------------------------------------------------------------------------------------
+# squash_changes (C05): the `with` block is client code -- an arbitrary sequence of operations on the batch trie
+
+class ClientAbort(Exception):
+    """stands for an arbitrary exception raised by the client block"""
+
+
+def squash_setup(E):
+    t = HM.mk_trie(E)                       # pruning or not: both are explored
+    E.ghost["db_write_faults"] = True
+    return {"self": t}
+
+
+def squash_body_model(E, ctx, fn, argv):
+    from pyvc.modules import Wrapped
+    base = fn
+    while isinstance(base, Wrapped):
+        base = base.func
+    ghost = E.ghost
+
+    def client(batch):
+        # whatever the client does with the batch trie, it can only change the batch trie's own state: its root, its
+        # reference counts, the buffer of its scratch database
+        ghost["batch"] = batch
+        ghost["batch_rc_is_outer"] = (batch.fields.get("_ref_count") is ctx.self.fields.get("_ref_count")
+                                      and batch.fields.get("_ref_count") is not None)
+        batch.fields["root_hash"] = objs.hash32(E, "batch_root")
+        rc = batch.fields.get("_ref_count")
+        if rc is not None:
+            E.havoc_obj(rc)
+        sdb = batch.fields["db"]
+        cache = sdb.fields["cache"]
+        if cache.has is None:
+            E.dict_type(cache, E.fresh_seq("k0", "bytes"), E.fresh_py("v0"))
+        E.havoc_obj(cache)
+        ghost["batch_root"] = batch.fields["root_hash"]
+        ghost["batch_rc_state"] = (rc.has, rc.val) if rc is not None else None
+        if E.nondet(2) == 1:
+            ghost["aborted"] = ExcObj(ClientAbort, ())
+            raise PyRaise(ghost["aborted"])
+        ghost["aborted"] = None
+        return None
+    E.depth = 0
+    return E.call_func(base, argv, {}, yield_cb=client)
+
+
+def squash_cases(E, ctx):
+    s = ctx.self
+    db = s.fields["db"]
+    ghost = E.ghost
+    aborted = ghost.get("aborted")
+    failed = ghost.get("commit_failed")
+    pruning = s.fields["is_pruning"] is True
+    rc_outer_old = ctx.old_field(s, "_ref_count")
+
+    def post_commit():
+        out = [("root-is-the-batch-root", ops.py_eq(s.fields["root_hash"], ghost["batch_root"]))]
+        if pruning:
+            rc = s.fields["_ref_count"]
+            st = ghost["batch_rc_state"]
+            out.append(("counts-are-the-batch-counts", bool(st is not None and rc is ghost["batch"].fields["_ref_count"]
+                                                            and rc.has is st[0] and rc.val is st[1])))
+        return out
+    if aborted is not None:
+        # nothing of the outer trie changes (frame obligations): root, database, reference counts
+        return [Case("aborted", raises=ClientAbort, exc=lambda e: [("same-exception", e is aborted)], modifies=[])]
+    if failed:
+        mods = [db]
+        return [Case("commit-failed", raises=OSError, modifies=mods,
+                     post=lambda: [("a-pruning-trie-may-have-lost-deleted-nodes-only", True)])]
+    mods = [db, (s, "root_hash")] + ([(s, "_ref_count")] if pruning else [])
+    return [Case("committed", returns=lambda: NOTHING, post=post_commit, modifies=mods)]
+
+
+def _register_squash(reg):
+    H = HEX + ":HexaryTrie."
+    reg.add("hexary_squash", Contract(H + "squash_changes", ["self"], squash_cases, setup=squash_setup,
+                                      body_model=squash_body_model, props=("C05", "C04", "C06"),
+                                      inline={"trie.utils.db:ScratchDB.__init__"}))
